@@ -90,6 +90,28 @@ def handleGen (op : String) (j : Json) : Except String Json := do
       match apply_overrides hasOptionR hasSectionR sectionKeysR removeOptionR removeSectionR addSectionR setValueR (wrap ini) (ovs.map toOv) (ads.map toOv) with
       | .error e => return Json.mkObj [("err", match e with | .missing => "missing" | .exists => "exists" | .badValue => "badValue" | .malformedOption => "malformedOption")]
       | .ok r => return Json.mkObj [("ini", iniJ r.state)]
+  | "list_items" =>
+    -- _query_actions._list_items (with parsed_sections / orphan_sections) on a file given as lines (read by the model's reader): the labels and raw values, in order
+    let lines ← (← getArr j "lines").mapM parseLine
+    match readIni currentCfg lines with
+    | .error e => return Json.mkObj [("err", errJ' e)]
+    | .ok ini =>
+      let getV := fun (r : IniRec) (s k : String) =>
+        -- (the raw parser compares option keys without their white space)
+        if s == r.default_section then ((r.state.vars.find? fun p => p.1 == Atsim.norm k).map (·.2)).getD ""
+        else (((r.state.sections.find? fun p => p.1 == s).bind fun p => p.2.find? fun q => q.1 == Atsim.norm k).map (·.2)).getD ""
+      -- `^\s*Table-Form\s*:` of _TableFormSection._section_name_regex
+      let isRel := fun (s : String) =>
+        let t := (s.toList.dropWhile Char.isWhitespace)
+        let pre := "Table-Form".toList
+        t.take pre.length == pre && ((t.drop pre.length).dropWhile Char.isWhitespace).head? == some ':'
+      let items := list_items hasSectionR sectionKeysR getV (fun r => r.state.sections.map (·.1)) (fun r => r.state.vars.map (·.1)) isRel ⟨wrap ini⟩
+      -- `queries`: labels handed to _item_value (listed ones and others): the value, or the error
+      let qs := (getStrs j "queries").toOption.getD []
+      let iv := qs.map fun q => match item_value hasSectionR sectionKeysR getV (fun r => r.state.sections.map (·.1)) (fun r => r.state.vars.map (·.1)) isRel hasOptionR ⟨wrap ini⟩ q with
+        | .ok v => arrJ [Json.str "ok", Json.str v]
+        | .error e => arrJ [Json.str "error", Json.str (match e with | .missing => "missing" | .exists => "exists" | .badValue => "badValue" | .malformedOption => "malformedOption")]
+      return Json.mkObj [("items", arrJ (items.map fun p => arrJ [Json.str p.1, Json.str p.2])), ("values", arrJ iv)]
   | "eam_builder" =>
     -- EAM_Potential_Builder._init_eampotentials (zero-filling) on rows (species, function id) and a reference-data table; the set iteration order is `reverse` or the identity
     let rows := fun (k : String) => do (← getArr j k).mapM fun r => do return ({ species := ← getStr r "sp", pfi := ⟨← getNat r "fid"⟩ } : EmbRow)
@@ -130,7 +152,13 @@ def handleGen (op : String) (j : Json) : Except String Json := do
     let eams := fun (b : BuilderObj) => (List.range b.id).map fun i => ({ species := toString i, atomicNumber := 1, mass := 1, latticeConstant := 0, latticeType := "fcc", embed := ⟨1⟩ } : EamRec)
     let tab3 := fun (a : List PotObj × Rat × Int) => (⟨[(a.1.length : Rat), a.2.1, (a.2.2 : Rat)]⟩ : TabObj)
     let tab6 := fun (a : List PotObj × List EamRec × Rat × Int × Rat × Int) => (⟨[(a.1.length : Rat), (a.2.1.length : Rat), a.2.2.1, (a.2.2.2.1 : Rat), a.2.2.2.2.1, (a.2.2.2.2.2 : Rat)]⟩ : TabObj)
+    let sf ← getStrs j "sections_fail"
+    let sectionObjects := fun (_ : CpRec) (_ _ : Unit) (nm : String) => if sf.contains nm then (.error FactoryErr.other : Except FactoryErr (List PotObj))
+      else .ok (if nm == "EAM-ADP-Dipole" then [⟨"A", "A", ⟨5⟩⟩] else if nm == "EAM-ADP-Quadrupole" then [⟨"A", "A", ⟨6⟩⟩, ⟨"A", "B", ⟨7⟩⟩, ⟨"B", "B", ⟨8⟩⟩, ⟨"B", "C", ⟨9⟩⟩] else [])
+    let tab8 := fun (a : List PotObj × List EamRec × List PotObj × List PotObj × Rat × Int × Rat × Int) =>
+      (⟨[(a.1.length : Rat), (a.2.1.length : Rat), (a.2.2.1.length : Rat), (a.2.2.2.1.length : Rat), a.2.2.2.2.1, (a.2.2.2.2.2.1 : Rat), a.2.2.2.2.2.2.1, (a.2.2.2.2.2.2.2 : Rat)]⟩ : TabObj)
     let r := match (← getStr j "which") with
+      | "adp" => adp_create_tabulation pairObjects (fun _ => ⟨0⟩) eamBuilder eams sectionObjects tab8 ⟨t⟩
       | "pair" => pair_create_tabulation pairObjects tab3 ⟨t⟩
       | "dlpoly" => dlpoly_create_tabulation pairObjects tab3 ⟨t⟩
       | "lammps" => lammps_create_tabulation pairObjects tab3 ⟨t⟩
